@@ -34,6 +34,11 @@ def scenarios(tier):
         # grace periods the 0.1 s polling loop hits exactly (0, 0.1, 0.5) with workers that never die from the signal
         for gg in (0, 0.1, 0.5):
             out.append(Scenario('op', op=op, n=1, pat='stubborn', inflight_kill=False, watchers=1, g=gg))
+    # requests sent with waiting: the instant of the reply is the instant the operation has completed for its client
+    for op in ('stop', 'restart', 'rm', 'stop-all'):
+        for pat in ('stubborn', 'slow'):
+            out.append(Scenario('op', op=op, n=2, pat=pat, inflight_kill=False, watchers=1, wait=True))
+        out.append(Scenario('op', op=op, n=1, pat='stubborn', inflight_kill=True, watchers=1, wait=True))
     # a kill request in flight (non exclusive) when the stop arrives
     for op in ('stop', 'restart', 'quit'):
         for pat in ('stubborn', 'late', 'obedient'):
@@ -58,6 +63,8 @@ def scenarios(tier):
         out.append(Scenario('ondemand-race', op=op, E=1))
         # ... or that is still in flight (workers that ignore the stop signal) when that start spawns its next worker
         out.append(Scenario('ondemand-race', op=op, E=1, pat='stubborn'))
+        # ... or that meets the stop with which that start ends itself (after_start refuses; the workers ignore the signal)
+        out.append(Scenario('ondemand-race', op=op, E=1, pat='stubborn', hook='after_start-false'))
     # phase two: stopped stays stopped
     maxlen = 2 if tier == 'quick' else 3
     ops = [o for o in TAIL_OPS if o != 'die-none']
@@ -159,16 +166,28 @@ def _run_op(scn, ch, res):
                 world.step(win.menu)
         t_req = CLOCK.now
         op = scn.op
+        wait = bool(scn.p.get('wait'))
+        wkw = {'waiting': True} if wait else {}
         if op == 'stop':
-            req = world.request('stop', name='a')
+            req = world.request('stop', name='a', **wkw)
         elif op == 'stop-all':
-            req = world.request('stop')
+            req = world.request('stop', **wkw)
         elif op == 'restart':
-            req = world.request('restart', name='a')
+            req = world.request('restart', name='a', **wkw)
         elif op == 'rm':
-            req = world.request('rm', name='a')
+            req = world.request('rm', name='a', **wkw)
         elif op == 'quit':
             req = world.request('quit')
+        if wait:
+            g_ = scn.p.get('g', G)
+            world.run(until=lambda w: req.replied(), horizon=g_ * (len(before) + 2) + 2.0, menu=win.menu)
+            res.check('C02.completes', req.replied(), lambda: '%s (waiting) not answered %.2fs after the request'
+                      % (op, CLOCK.now - t_req), where='watcher._stop')
+            if req.replied() and req.ok():
+                surv = [p.pid for p in world.procs_of('a') if p.pid in before and p.state == RUNNING]
+                res.check('C02.no_survivor', not surv,
+                          lambda: '%s (waiting) was answered ok at +%.3fs while workers %s it had to terminate were still '
+                          'running' % (op, CLOCK.now - t_req, surv), where='watcher._stop/answered-before-the-workers-were-gone')
         accepted = req.ok()
         res.check('C02.accepted', accepted, lambda: 'request refused: %r' % req.reply(), where='controller')
         if not accepted:
@@ -427,16 +446,21 @@ def _run_ondemand_race(scn, ch, res):
     from circus.sockets import CircusSocket
     from vt.events import Req
     sock = CircusSocket.load_from_config({'name': 'web', 'host': '127.0.0.1', 'port': '0'})
+    extra = {}
+    if scn.p.get('hook') == 'after_start-false':
+        def refuse(watcher, arbiter, hook_name, **kw):
+            return False
+        extra['hooks'] = {'after_start': (refuse, False)}
     world = World(ch, [WSpec('od', numprocesses=3, graceful_timeout=G, warmup_delay=0.25, on_demand=True,
                              use_sockets=True, cmd='worker --fd $(circus.sockets.web)',
-                             behaviours=pattern(scn.p.get('pat', 'obedient')))], sockets=[sock])
+                             behaviours=pattern(scn.p.get('pat', 'obedient')), **extra)], sockets=[sock])
     client = None
     state = {'req': None}
 
     def menu(w):
         if state['req'] is not None:
             return []
-        props = {'name': 'od'}
+        props = {'name': 'od', 'waiting': True}
         return [_Op(Req(scn.op, **props), state)]
     try:
         world.boot()
@@ -456,13 +480,21 @@ def _run_ondemand_race(scn, ch, res):
             pass
         t0 = CLOCK.now
         # the window: the stop / rm may arrive at any loop-iteration boundary of the next 1.2 s
-        world.run(horizon=1.2, menu=menu)
+        world.run(until=lambda w: state['req'] is not None, horizon=1.2, menu=menu)
         if state['req'] is None:
             res.ev('C02.no_stop_injected', True)
             res.outcome = _outcome(world)
             return finish(world, res)
         rq = state['req'].request
         res.check('C02.accepted', rq.ok() or True, '', where='controller')
+        # the request was sent with waiting: the instant it is answered is the instant it has completed
+        world.run(until=lambda w: rq.replied(), horizon=3)
+        if rq.replied() and rq.ok():
+            alive_now = [p.pid for p in world.procs_of('od') if p.state == RUNNING]
+            res.check('C02.no_survivor', not alive_now,
+                      lambda: '%s od (waiting) was answered ok at t=%.3f while workers %s of the watcher were still running '
+                      '(status %s)' % (scn.op, CLOCK.now, alive_now, od.status()),
+                      where='watcher._stop/answered-before-the-stop-in-flight-ended')
         world.run(until=lambda w: w.slot() is None and not w.stopping_processes(), horizon=3)
         world.settle(3)
         alive = [p.pid for p in world.procs_of('od') if p.state == RUNNING]
